@@ -134,6 +134,45 @@ Lemma dkg_agg_key_signs_and_verifies css i m :
              (dkg_sign H (dkg_sk css i) m).
 Proof. by rewrite dkg_gpk_at_mpks; apply: dkg_sign_verifies. Qed.
 
+(* aggregation is a function of the received shares: repeating it, or adding a share that is
+   already there, changes nothing; on the honest shares of the dealers it gives dkg_sk *)
+Lemma dkg_aggregate_idem (st : seq (F * F) * F) : dkg_aggregate (dkg_aggregate st) = dkg_aggregate st.
+Proof. by []. Qed.
+
+Lemma dkg_aggregate_forgets (recv : seq (F * F)) (x y : F) :
+  dkg_aggregate (recv, x) = dkg_aggregate (recv, y).
+Proof. by []. Qed.
+
+Lemma dkg_uniq_fst (recv : seq (F * F)) (j b s : F) :
+  uniq (unzip1 recv) -> (j, b) \in recv -> (j, s) \in recv -> b = s.
+Proof.
+elim: recv => [//|[a c] recv IH] /= /andP[nin uq].
+rewrite !in_cons => /orP[/eqP[ja bc]|inb] /orP[/eqP[ja' sc]|ins].
+- by rewrite bc sc.
+- by move/negP: nin; case; rewrite -ja; apply/mapP; exists (j, s).
+- by move/negP: nin; case; rewrite -ja'; apply/mapP; exists (j, b).
+- exact: IH.
+Qed.
+
+Lemma dkg_recv_add_same (recv : seq (F * F)) (j s : F) :
+  uniq (unzip1 recv) -> (j, s) \in recv -> dkg_recv_add recv j s = recv.
+Proof.
+move=> uq mem; rewrite /dkg_recv_add.
+have -> : j \in unzip1 recv by apply/mapP; exists (j, s).
+rewrite -[RHS]map_id; apply/eq_in_map => p pin.
+case: eqP => // pj; case: p pin pj => a b pin /= ab; subst a.
+by rewrite (dkg_uniq_fst uq pin mem).
+Qed.
+
+Lemma dkg_aggregate_honest css (jds : seq F) i (x : F) :
+  size jds = size css ->
+  (dkg_aggregate ([seq (p.1, dkg_share p.2 i) | p <- zip jds css], x)).2 = dkg_sk css i.
+Proof.
+move=> sz; rewrite /dkg_aggregate /dkg_sk /= big_map.
+rewrite -[in RHS](@unzip2_zip _ _ jds css) ?sz // big_map.
+by apply: eq_bigr.
+Qed.
+
 Definition dkg_sum_poly css : {poly F} := \sum_(cs <- css) Poly cs.
 
 Lemma dkg_sk_horner css i : dkg_sk css i = (dkg_sum_poly css).[i].
